@@ -20,21 +20,24 @@ def getMatch (line : Bytes) (indices : List Int) (idx : Int) : Except String Byt
     let stop := indices.getD (sliceIndex.toNat + 1) 0
     if start < 0 ∨ stop < 0 then .ok [] else goSlice line start stop
 
-def arrayGo (line : Bytes) (indices : List Int) : Nat → Nat → Except String Bytes
+/-- The loop of `array()`, `for i := 1; i < len(s.indices)/2; i++`, over an abstract `GetMatch`
+(`get`), `half = len(s.indices)/2`; first argument = fuel, second = `i`.  (Kept generic in `get` so
+that unfolding the loop never forces the evaluation of `GetMatch`'s int64 arithmetic.) -/
+def arrayGo (get : Nat → Except String Bytes) (half : Nat) : Nat → Nat → Except String Bytes
   | 0, _ => .ok []
   | n + 1, i =>
-    if i < indices.length / 2 then
-      match getMatch line indices i with
+    if i < half then
+      match get i with
       | .error m => .error m
       | .ok v =>
-        match arrayGo line indices n (i + 1) with
+        match arrayGo get half n (i + 1) with
         | .error m => .error m
         | .ok rest => .ok ((if i > 1 then [0] else []) ++ v ++ rest)
     else .ok []
 
 /-- `array()`: groups 1.. joined by the NUL array separator. -/
 def array (line : Bytes) (indices : List Int) : Except String Bytes :=
-  arrayGo line indices (indices.length / 2) 1
+  arrayGo (fun i => getMatch line indices (i : Nat)) (indices.length / 2) (indices.length / 2) 1
 
 structure MatchCtx where
   line : Bytes
